@@ -466,6 +466,15 @@ func checkC04(c *Ctx) *report.Result {
 			ev, _ = c.evalCPU(st, m.NextFn, []ai.Value{ptrTo(cpu)}, nil, ai.NewConstInt(8, false, 0x00))
 			imeAfter, ic = boolConst(c.cellBool(ev.Post, im.Ints, im.ImePath))
 			r.Ob("I-ei", ic && !imeAfter, "boundary without a preceding EI leaves IME clear", firstPos(c, m.NextFn), "")
+			// EI executed while IME is already set, and the boundary starts a dispatch: the latch is consumed at
+			// this boundary all the same (otherwise it would re-enable IME when the handler's first instruction is fetched)
+			st = c.quietState(m)
+			im.setIEIF(st, 0x1f, 0x1f)
+			st.SetCell(im.Ints, im.ImePath, ai.NewConstBool(true))
+			st.SetCell(cpu, "."+l, ai.NewConstBool(true))
+			ev, calls = c.evalCPU(st, m.NextFn, []ai.Value{ptrTo(cpu)}, nil, ai.NewConstInt(8, false, 0x00))
+			lAfter, lc = boolConst(c.cellBool(ev.Post, cpu, "."+l))
+			r.Ob("I-ei", lc && !lAfter && len(calls) == 0, "boundary after a redundant EI that starts a dispatch consumes the latch ("+l+")", firstPos(c, m.NextFn), fmt.Sprintf("with the latch set, IME set and all interrupts pending: latch afterwards %v (constant %v), memory accesses %d; a latch that survives the dispatch sets IME again inside the handler", lAfter, lc, len(calls)))
 		}
 	}
 
